@@ -314,6 +314,7 @@ pub fn run_case(g: &LexG, spec: &SetSpec, wd: &Workdir, rep: &mut Rep, inputs: &
         let case = |extra: Value| json!({"grammar": text, "lexg": g.to_json(), "settings": spec.to_json(), "input": input, "extra": extra});
         let sig = |k: &str| format!("{}:{}:{}:{}", k, fnv(&text), fnv(&spec.to_json().to_string()), fnv(input));
         rep.count("evaluations", 1);
+        crate::rep::watchdog::touch();
         dynp::set_step_limit(2_000_000);
         if !spec.glr {
             let mut contested = false;
